@@ -771,4 +771,109 @@ theorem Consistent.perm_scan {defs : List IdxDef} {w : World} (h : Consistent de
   intro o
   rw [h.count_scan, count_scan_list defs w.snap i k o w.tab.objs h.tinv.objsNodup]
 
+/-! ### why an insertion is rejected -/
+
+theorem resolve_error {d : IdxDef} {r : KeyRes} {e : Err} (h : resolve d r = .error e) : e = .valueError := by
+  cases r <;> simp only [resolve] at h <;> (try split at h) <;> (try split at h) <;> simp_all
+
+/-- why `mk_keys` raises -/
+theorem mkKeys_err {d : IdxDef} {t : Table} {i : Nat} {o : ObjId} {r : KeyRes} {e : Err}
+    (h : mkKeys d t i o r = .error e) :
+    (e = .valueError ∧ resolve d r = .error .valueError) ∨
+    (e = .keyError ∧ d.kind = .unique ∧ ∃ k, resolve d r = .one k ∧ t.idx i k ≠ []) := by
+  unfold mkKeys at h
+  split at h
+  · cases h
+  · rename_i e' hr
+    injection h with h; subst h
+    have := resolve_error hr; subst this
+    exact Or.inl ⟨rfl, hr⟩
+  · rename_i k hr
+    split at h
+    · rename_i hu
+      split at h
+      · rename_i hne
+        injection h with h; subst h
+        exact Or.inr ⟨rfl, hu, k, hr, hne⟩
+      · cases h
+    · cases h
+  · cases h
+
+/-- why the loop of `_mk_indices` raises: some index `j` rejects the object, judged on the table as it was before -/
+theorem mkLoop_err (defs : List IdxDef) (o : ObjId) (rs : List KeyRes) : ∀ (n i : Nat) (t : Table) (e : Err),
+    (mkLoop defs o rs n i t).2.2 = some e →
+    ∃ j d, i ≤ j ∧ defs[j]? = some d ∧
+      ((e = .valueError ∧ resolve d (keyResAt rs j) = .error .valueError) ∨
+       (e = .keyError ∧ d.kind = .unique ∧ ∃ k, resolve d (keyResAt rs j) = .one k ∧ t.idx j k ≠ [])) := by
+  intro n
+  induction n with
+  | zero => intro i t e h; simp [mkLoop] at h
+  | succ n ih =>
+    intro i t e h
+    unfold mkLoop at h
+    split at h
+    · simp at h
+    · rename_i d hd
+      split at h
+      · rename_i e' hk
+        simp only [Option.some.injEq] at h
+        subst h
+        exact ⟨i, d, Nat.le_refl _, hd, mkKeys_err hk⟩
+      · rename_i t' ks hk
+        obtain ⟨_, _, _, hidx, _⟩ := mkKeys_ok hk
+        obtain ⟨j, d', hij, hd', hcase⟩ := ih (i+1) t' e h
+        refine ⟨j, d', by omega, hd', ?_⟩
+        rcases hcase with hv | ⟨he, hu, k, hr, hne⟩
+        · exact Or.inl hv
+        · refine Or.inr ⟨he, hu, k, hr, ?_⟩
+          have hji : j ≠ i := by omega
+          rw [hidx j k, count_map_pair] at hne
+          simpa [hji] using hne
+
+theorem mkIndices_err_reason {defs : List IdxDef} {t t' : Table} {o : ObjId} {rs : List KeyRes} {e : Err}
+    (h : mkIndices defs t o rs = (t', some e)) :
+    ∃ j d, defs[j]? = some d ∧
+      ((e = .valueError ∧ resolve d (keyResAt rs j) = .error .valueError) ∨
+       (e = .keyError ∧ d.kind = .unique ∧ ∃ k, resolve d (keyResAt rs j) = .one k ∧ t.idx j k ≠ [])) := by
+  unfold mkIndices at h
+  have spec := mkLoop_err defs o rs defs.length 0 t
+  generalize mkLoop defs o rs defs.length 0 t = r at h spec
+  obtain ⟨t1, refs, e'⟩ := r
+  cases e' with
+  | none => simp at h
+  | some e' =>
+    simp only [Prod.mk.injEq, Option.some.injEq] at h
+    obtain ⟨_, he⟩ := h
+    subst he
+    obtain ⟨j, d, _, hd, hc⟩ := spec e' rfl
+    exact ⟨j, d, hd, hc⟩
+
+/-- `add_object` raises only for a reason: a key of the object in a unique index is taken (`KeyError`), or the key
+function of a unique index returned a list (`ValueError`) -/
+theorem add_err_reason {defs : List IdxDef} {t : Table} {o : ObjId} {rs : List KeyRes} {e : Err}
+    (h : (add defs t o rs).2 = some e) :
+    o ∉ t.objs ∧
+    ((e = .keyError ∧ ∃ i k, isUnique defs i = true ∧ k ∈ keysOf defs i rs ∧ t.idx i k ≠ []) ∨
+     (e = .valueError ∧ ∃ i d, defs[i]? = some d ∧ d.kind = .unique ∧ ∃ ks, keyResAt rs i = .many ks)) := by
+  unfold add at h
+  split at h
+  · cases h
+  · rename_i hno
+    refine ⟨hno, ?_⟩
+    unfold addNew at h
+    generalize hr : mkIndices defs { t with objs := t.objs ++ [o] } o rs = r at h
+    obtain ⟨t2, e'⟩ := r
+    cases e' with
+    | none => simp at h
+    | some e' =>
+      simp only [Option.some.injEq] at h
+      subst h
+      obtain ⟨j, d, hd, hc⟩ := mkIndices_err_reason hr
+      rcases hc with ⟨he, hres⟩ | ⟨he, hu, k, hres, hne⟩
+      · refine Or.inr ⟨he, j, d, hd, ?_⟩
+        generalize keyResAt rs j = kr at hres
+        cases kr <;> simp only [resolve] at hres <;> (try split at hres) <;> (try split at hres) <;> simp_all
+      · refine Or.inl ⟨he, j, k, (isUnique_of_get hd).mpr hu, ?_, hne⟩
+        simp [keysOf, hd, keysOfRes, hres]
+
 end Sdc.Multikey
